@@ -73,6 +73,12 @@ def execute(prop, cfg, ops=None, streams=None, max_ops=None):
         c = getattr(world, "close", None)
         if c:
             c()
+    soft = getattr(world, "soft", None)
+    if viol is None and soft:
+        # a violation class the world chose to record without stopping the run (used for frequent
+        # recorded known findings, so that the rest of the run is still explored)
+        viol = dict(soft[0], step=len(rec) - 1)
+        h.update(("SOFT" + viol["inv"] + "|" + viol["sig"]).encode())
     st = world.stats
     return {
         "cfg": cfg,
